@@ -145,10 +145,17 @@ def run_jobs(jobs, kind="plain", per_job_timeout=20.0, chunk=12, parallel=6, sta
 EQS = ["A -> ", " -> A", "A -> B", "A + B -> C", "2 A -> B", "B -> A", "A + B -> ", "C -> B", "B -> C", "C -> A + B"]
 
 
-def gen_system(rng, stochastic, space_kind=None, small=True, static=False, degenerate=False, sub_molecule=False, dt=0.01):
+# "many reactions, few species": more directed reactions (2 per reversible Reaction) than 6 * n_species, so that every size
+# that depends on n_reactions / n_species / the slot count is exercised with n_reactions > 6 n_species.  No reaction whose
+# reverse closes an autocatalytic loop (size assumption).
+EQS_1 = ["A -> ", " -> A", "2 A -> "]
+EQS_2 = ["A -> B", "A + B -> ", "A -> ", " -> B", "B -> ", "2 A -> ", "2 B -> ", " -> A"]
+
+
+def gen_system(rng, stochastic, space_kind=None, small=True, static=False, degenerate=False, sub_molecule=False, dt=0.01, many_reactions=False):
     """an rdsystem dictionary; `static`: no reaction, no diffusion (every state equals the initial one);
     `degenerate`: size-1 grids / periodic axes of length 1-2 / isolated nodes, self-loops, parallel edges"""
-    nsp = rng.randint(1, 3)
+    nsp = rng.randint(1, 3) if not many_reactions else rng.choice([1, 1, 2])
     labels = ["A", "B", "C"][:nsp]
     nenv = rng.choice([1, 1, 2])
     envs = ["a", "b"][:nenv]
@@ -168,7 +175,10 @@ def gen_system(rng, stochastic, space_kind=None, small=True, static=False, degen
             sp["chstt"] = True if nenv == 1 or rng.random() < 0.5 else {"b": True}
         species.append(sp)
     reactions = []
-    if not static:
+    if many_reactions and not static:
+        for _ in range(rng.randint(4, 6) if nsp == 1 else rng.randint(7, 9)):
+            reactions.append({"eq": rng.choice(EQS_1 if nsp == 1 else EQS_2), "k+": rng.choice([0.05, 0.3, 1.0]), "k-": rng.choice([0.1, 0.7])})
+    elif not static:
         for _ in range(rng.randint(0, 3)):
             eq = rng.choice(EQS)
             used = set(ch for ch in eq if ch in "ABC")
@@ -259,7 +269,7 @@ def gen_tsamples(rng, dt, tmax_hint):
 
 
 def gen_script(rng, option, space_kind=None, dyadic=None, policy=None, static=False, degenerate=False, sub_molecule=False,
-               units=True, max_steps=120, mode=None, zero_tmax=None, quantity=None):
+               units=True, max_steps=120, mode=None, zero_tmax=None, quantity=None, many_reactions=False):
     """(script description for life_child, info) — a VALID script.  `units`: True (half of the scripts state their time
     quantities in their own units and use a units system with another time unit and a quantity unit that may differ from
     molecule), False, or "force"; `quantity`: force that quantity unit.
@@ -271,7 +281,8 @@ def gen_script(rng, option, space_kind=None, dyadic=None, policy=None, static=Fa
         dt = 2.0 ** (-rng.randint(2, 7))
     else:
         dt = rng.choice([0.01, 0.003, 0.07, 0.0123, 0.1])
-    system, nsp, n = gen_system(rng, stochastic, space_kind, static=static, degenerate=degenerate, sub_molecule=sub_molecule, dt=dt)
+    system, nsp, n = gen_system(rng, stochastic, space_kind, static=static, degenerate=degenerate, sub_molecule=sub_molecule, dt=dt,
+                                many_reactions=many_reactions)
     nsteps = rng.randint(1, max_steps)
     tmax = dt * nsteps if rng.random() < 0.5 else dt * (nsteps + rng.choice([0.25, 0.5, 0.9]))
     policy = policy or rng.choice(POLICIES)
@@ -323,6 +334,7 @@ def gen_script(rng, option, space_kind=None, dyadic=None, policy=None, static=Fa
         kw["__from_dict__"] = True
     info = {"option": option, "policy": policy, "dyadic": dyadic and tu == "s" and "units_system" not in kw, "style": style, "nsp": nsp, "n": n,
             "space": system["space"]["type"], "mode": mode, "static": static, "explicit_tmax": explicit_tmax, "units": "units_system" in kw,
+            "n_directed_reactions": 2 * len(system["network"]["reactions"]), "many_reactions": many_reactions,
             "seed_as": kw.get("__seed_as__", "int"), "from_dict": bool(kw.get("__from_dict__")) and "units_system" not in kw and not isinstance(kw["t_sample"], dict),
             "expect": expect, "ts_form": form, "quantity": (kw["units_system"]["quantity"] if "units_system" in kw else "molecule")}
     return {"system": system, "kw": kw}, info
